@@ -2,6 +2,8 @@
 """print the prompt given to a fresh seeding sub-agent for one property (only the property text and its scratch worktree)"""
 import json, sys
 pid = sys.argv[1]; crate = sys.argv[2]; testcmd = sys.argv[3]
+n0 = int(sys.argv[4]) if len(sys.argv) > 4 else 1   # first output number (later rounds continue the numbering)
+avoid = sys.argv[5] if len(sys.argv) > 5 else ""   # sites already used by earlier rounds (names only)
 wt = "/tmp/seed-" + pid.lower()
 for l in open('/verif/properties.jsonl'):
     p = json.loads(l)
@@ -13,9 +15,9 @@ Property (must ALWAYS hold for the library) — "{p['title']}":
 "{p['statement']}"
 (code mainly in: {', '.join(p['anchors']['files'])})
 
-Your job: produce TWO different, independent source changes (each a separate small patch against the clean worktree) that BREAK this property while the code still compiles and the existing test-suite of the crate still passes (`{testcmd}` must pass with each change applied; if a test there is timing-flaky under machine load, re-run it alone before concluding). Each change should look like a plausible refactoring / optimisation / "simplification" mistake, and must need something specific to manifest — a particular interleaving or segmentation of the input, a boundary value, a multi-step sequence of operations, an unusual but legal input, or two cooperating sites that each look fine alone — not something that ordinary use would expose at once. Aim the two changes at DIFFERENT clauses of the property.
+Your job: produce TWO different, independent source changes (each a separate small patch against the clean worktree) that BREAK this property while the code still compiles and the existing test-suite of the crate still passes (`{testcmd}` must pass with each change applied; if a test there is timing-flaky under machine load, re-run it alone before concluding). Each change should look like a plausible refactoring / optimisation / "simplification" mistake, and must need something specific to manifest — a particular interleaving or segmentation of the input, a boundary value, a multi-step sequence of operations, an unusual but legal input, or two cooperating sites that each look fine alone — not something that ordinary use would expose at once. Aim the two changes at DIFFERENT clauses of the property.{(" Earlier rounds already changed these sites; pick different ones: " + avoid + ".") if avoid else ""}
 
-For each change deliver, in {wt}-out/<n>/ (n = 1, 2):
+For each change deliver, in {wt}-out/<n>/ (n = {n0}, {n0+1}):
 - patch.diff (`git diff` against the clean worktree; applies with `git apply`)
 - demo: a small standalone Rust test (e.g. an integration test file you place under {crate}/tests/, or a `#[test]` fn) that FAILS with the change and PASSES without it; say exactly how to run it
 - README.txt: what the change does, which clause of the property it breaks, what is needed for it to manifest, and the commands you ran (with/without the change) and their results.
